@@ -1,6 +1,7 @@
 SPECIFICATION Spec
 CONSTANTS
   PRMDocs <- PRMDocsCore
+  Challenges <- ChallengesCore
   ASMFatalStops <- WitASMFatalStops
 INVARIANTS NoFallbackAfterRejected
 CHECK_DEADLOCK FALSE
